@@ -153,3 +153,52 @@ Definition extract_impl (b : list N) : xres :=
       end
     end
   end.
+
+(* ------------------------------------------------------------------ the body of the in-head arm
+   for meta (tree_builder/rules.rs) after insert_and_pop_element_for: which
+   ProcessResult it returns, as a function of the tag's attributes
+   (Tag::get_attribute: first attribute with that local name; the tokenizer
+   gives HTML attributes the empty namespace) *)
+Fixpoint bytes_eqb (a b : list N) : bool :=
+  match a, b with
+  | [], [] => true
+  | x :: a', y :: b' => (x =? y) && bytes_eqb a' b'
+  | _, _ => false
+  end.
+
+Fixpoint get_attribute (attrs : list (list N * list N)) (name : list N) : option (list N) :=
+  match attrs with
+  | [] => None
+  | (n, v) :: rest => if bytes_eqb n name then Some v else get_attribute rest name
+  end.
+
+Definition n_charset : list N := [99; 104; 97; 114; 115; 101; 116].
+Definition n_http_equiv : list N := [104; 116; 116; 112; 45; 101; 113; 117; 105; 118].
+Definition n_content : list N := [99; 111; 110; 116; 101; 110; 116].
+Definition v_content_type : list N := [99; 111; 110; 116; 101; 110; 116; 45; 116; 121; 112; 101].
+
+Inductive arm_res :=
+| AIndicator (label : list N)   (* ProcessResult::EncodingIndicator(label) *)
+| ADone                         (* ProcessResult::DoneAckSelfClosing *)
+| APanic.
+
+Definition meta_arm (attrs : list (list N * list N)) : arm_res :=
+  match get_attribute attrs n_charset with
+  | Some charset => AIndicator charset
+  | None =>
+    match get_attribute attrs n_http_equiv with
+    | Some value =>
+      if eq_ignore_ascii_case value v_content_type then
+        match get_attribute attrs n_content with
+        | Some content =>
+          match extract_impl content with
+          | XSome encoding => AIndicator encoding
+          | XNone => ADone
+          | _ => APanic
+          end
+        | None => ADone
+        end
+      else ADone
+    | None => ADone
+    end
+  end.
